@@ -296,6 +296,11 @@ func (w *nftWorkload) recipient() string {
 		w.addrs[a] = true
 		return a
 	}
+	if rng.Intn(8) == 0 {
+		// the other valid spelling of the same account
+		w.run.Count("recipient-spelled-in-upper-case", 1)
+		return strings.ToUpper(w.r.Acc(rng.Intn(len(w.r.Accounts))).Addr.String())
+	}
 	return w.r.Acc(rng.Intn(len(w.r.Accounts))).Addr.String()
 }
 
@@ -380,8 +385,8 @@ func (w *nftWorkload) apply(br *rig.BlockRecord, tx *rig.TxRecord, tag *nftTag) 
 			if c.MintRestricted && m.Sender != c.Creator {
 				viol("mint-restricted-class-minted-by-non-creator", "%s minted %s into mint-restricted class %s created by %s", m.Sender, m.Id, m.DenomId, c.Creator)
 			}
-			c.Toks[m.Id] = &nftTok{Owner: m.Recipient, Name: m.Name, URI: m.URI, URIHash: m.UriHash, Data: m.Data}
-			w.addrs[m.Recipient] = true
+			c.Toks[m.Id] = &nftTok{Owner: htCanonAddr(m.Recipient), Name: m.Name, URI: m.URI, URIHash: m.UriHash, Data: m.Data}
+			w.addrs[htCanonAddr(m.Recipient)] = true
 		}
 		run.Class("mint", role, fmt.Sprint("restricted=", c.MintRestricted), fmt.Sprint("dup=", exists), outcome)
 		if !ok && c.MintRestricted && m.Sender != c.Creator {
@@ -422,7 +427,7 @@ func (w *nftWorkload) apply(br *rig.BlockRecord, tx *rig.TxRecord, tag *nftTag) 
 		}
 		t := c.Toks[m.Id]
 		role := w.role(m.Sender, c, t)
-		nt := nftTok{Owner: m.Recipient, Name: modify(t.Name, m.Name), URI: modify(t.URI, m.URI), URIHash: modify(t.URIHash, m.UriHash), Data: modify(t.Data, m.Data)}
+		nt := nftTok{Owner: htCanonAddr(m.Recipient), Name: modify(t.Name, m.Name), URI: modify(t.URI, m.URI), URIHash: modify(t.URIHash, m.UriHash), Data: modify(t.Data, m.Data)}
 		changed := nt.Name != t.Name || nt.URI != t.URI || nt.URIHash != t.URIHash || nt.Data != t.Data
 		sentinel := m.Name == nfttypes.DoNotModify && m.URI == nfttypes.DoNotModify && m.UriHash == nfttypes.DoNotModify && m.Data == nfttypes.DoNotModify
 		if ok {
@@ -433,9 +438,9 @@ func (w *nftWorkload) apply(br *rig.BlockRecord, tx *rig.TxRecord, tag *nftTag) 
 				viol("update-restricted-metadata-changed:transfer", "transfer changed metadata of %s/%s in update-restricted class", m.DenomId, m.Id)
 			}
 			*t = nt
-			w.addrs[m.Recipient] = true
+			w.addrs[htCanonAddr(m.Recipient)] = true
 		}
-		run.Class("transfer", role, fmt.Sprint("update-restricted=", c.UpdateRestricted), fmt.Sprint("changed=", changed, " sentinel=", sentinel, " self=", m.Recipient == m.Sender), outcome)
+		run.Class("transfer", role, fmt.Sprint("update-restricted=", c.UpdateRestricted), fmt.Sprint("changed=", changed, " sentinel=", sentinel, " self=", htCanonAddr(m.Recipient) == m.Sender), outcome)
 		if !ok && m.Sender != t.Owner {
 			run.Count("hostile-transfer-rejected", 1)
 		}
@@ -472,8 +477,8 @@ func (w *nftWorkload) apply(br *rig.BlockRecord, tx *rig.TxRecord, tag *nftTag) 
 			if m.Sender != c.Creator {
 				viol("class-handover-by-non-creator", "%s handed over class %s created by %s", m.Sender, m.Id, c.Creator)
 			}
-			c.Creator = m.Recipient
-			w.addrs[m.Recipient] = true
+			c.Creator = htCanonAddr(m.Recipient)
+			w.addrs[htCanonAddr(m.Recipient)] = true
 		}
 		run.Class("transfer-class", role, outcome)
 		if !ok && m.Sender != c.Creator {
